@@ -9,6 +9,7 @@ package main
 import (
 	"bytes"
 	"fmt"
+	"github.com/google/inverting-proxy/app/types"
 	"hash/fnv"
 	"io"
 	"log"
@@ -97,6 +98,27 @@ func init() {
 			w.Header().Set("X-Inlined", strconv.Itoa(inl))
 			w.Header().Set("X-Parts", strconv.Itoa(len(parts)))
 			w.Write(back)
+		case "respcron": // driver-only: store a request and its response now, run the clean-up job, read the response back
+			data, _ := io.ReadAll(r.Body)
+			now := time.Now()
+			if err := s.WriteRequest(ctx, &types.Request{BackendID: "cron-b", RequestID: requestID, User: "u@x", StartTime: now, Contents: []byte("GET / HTTP/1.1\r\n\r\n")}); err != nil {
+				http.Error(w, "write request: "+err.Error(), 500)
+				return
+			}
+			if err := s.WriteResponse(ctx, &types.Response{BackendID: "cron-b", RequestID: requestID, StartTime: now, Contents: data}); err != nil {
+				http.Error(w, "write response: "+err.Error(), 500)
+				return
+			}
+			if err := s.DeleteOldRequests(ctx); err != nil {
+				http.Error(w, "clean-up: "+err.Error(), 500)
+				return
+			}
+			resp, err := s.ReadResponse(ctx, "cron-b", requestID)
+			if err != nil || resp == nil {
+				http.Error(w, fmt.Sprintf("read response after the clean-up: %v", err), 404)
+				return
+			}
+			w.Write(resp.Contents)
 		case "agent":
 			handleAgentRequest(ctx, s, w, r)
 		case "api":
